@@ -107,7 +107,8 @@ def build_harness(variant="asan", log=None):
         msg = "\n".join(f"{b[1]}\n{b[2]}" for b in bad[:5])
         shutil.rmtree(d, ignore_errors=True)
         raise RuntimeError("harness build failed:\n" + msg)
-    link = ["gcc"] + VARIANTS[variant] + [j[1] for j in jobs] + [ZSTD_LIB, "-lz", "-lm", "-lpthread", "-o", exe]
+    link = ["gcc"] + VARIANTS[variant] + [j[1] for j in jobs] + [ZSTD_LIB, "-lz", "-lm", "-lpthread",
+            "-Wl,--wrap=malloc,--wrap=calloc,--wrap=realloc", "-o", exe]
     r = sh(link)
     if r.returncode != 0:
         shutil.rmtree(d, ignore_errors=True)
